@@ -9,6 +9,11 @@ import (
 	"strconv"
 )
 
+// numParseError is the panic value used when a numeric token matched by the
+// tokenizer cannot be represented.  The parser entry point turns it into a
+// parse error at the offending token.
+type numParseError string
+
 // parseInt parses bytes as a 64-bit signed decimal integer.
 //
 // Reimplementing this method avoids the overhead of copying the byte array to
@@ -38,7 +43,7 @@ func parseInt(s []byte) int64 {
 		}
 		n1 := 10*n + uint64(c-'0')
 		if n1 < n || n1 > cutoff || (!neg && n1 == cutoff) {
-			panic("integer overflow parsing " + string(s))
+			panic(numParseError("integer overflow parsing " + string(s)))
 		}
 		n = n1
 	}
@@ -57,7 +62,7 @@ func parseInt(s []byte) int64 {
 func parseFloat(s []byte) float64 {
 	f, err := strconv.ParseFloat(string(s), 64)
 	if err != nil {
-		panic(err)
+		panic(numParseError(err.Error()))
 	}
 	return f
 }
@@ -70,7 +75,7 @@ func parseFloat(s []byte) float64 {
 func parseFloat32(s []byte) float32 {
 	f, err := strconv.ParseFloat(string(s), 32)
 	if err != nil {
-		panic(err)
+		panic(numParseError(err.Error()))
 	}
 	return float32(f)
 }
